@@ -13,7 +13,7 @@ Definition cool_ok (P : @p1d float) (visf : bool) (ts td dHe : float)
 (* nucleation: (T before, T after, ice fraction after) *)
 Definition nuc_ok (P : @p1d float) (r : list float * list float * list float) : bool :=
   let '(T, T', W') := r in
-  close9 (map (fun x => fst (nuc_point Fops P x)) T) T' && all_close 0x1p-30 0x1p-40 (map (fun x => snd (nuc_point Fops P x)) T) W'.
+  close9 (fst (nuc_step Fops P T)) T' && all_close 0x1p-30 0x1p-40 (snd (nuc_step Fops P T)) W'.
 (* solidification step: (T, w, T_shelf, time, flux, T', w') *)
 Definition solid_ok (P : @p1d float) (visf : bool) (ts td dHe : float)
   (r : list float * list float * float * float * float * list float * list float) : bool :=
